@@ -1,4 +1,5 @@
 import Dashu.Model.Int.Repr
+import Dashu.Model.Int.Mul
 import Dashu.Gen.Misc
 /-
   Division layer of the integer model (C02): mirrors `integer/src/div/mod.rs`, `div/simple.rs`,
@@ -15,8 +16,8 @@ import Dashu.Gen.Misc
     (`a_hi < divisor`, "top bit set"); a violated precondition is an `.undocumented` error, never a
     silently wrong value.
   * Burnikel–Ziegler (`div/divide_conquer.rs`) is mirrored (`bzSameLen`, `bzSmallQuotient`,
-    `bzOuter`); the multiplication it calls (`mul::add_signed_mul`) is a contract parameter
-    (`subMulContract`: exact `c − a·b` with signed carry) — the multiplication kernels are C01's.
+    `bzOuter`); the multiplication it calls is C01's mirrored `addSignedMul`
+    (`Dashu/Model/Int/Mul.lean`: schoolbook / Karatsuba / Toom-3 with chunk splitting).
   Core Lean only.
 -/
 namespace Dashu.Model.Div
@@ -358,14 +359,6 @@ def divRemInPlaceDCFrontier (W : Nat) (lhs rhs : List Nat) : List Nat × Nat :=
 
 -- ------------------------------------------------------------------ div/divide_conquer.rs
 
-/-- CONTRACT of `mul::add_signed_mul(c, Negative, a, b)` (`c.len() == a.len() + b.len()`): the
-    words of `c − a·b` modulo `B^len(c)` and the signed carry (floor quotient).  The multiplication
-    kernels themselves are C01's subject. -/
-def subMulContract (W : Nat) (c a b : List Nat) : List Nat × Int :=
-  let v : Int := (val W c : Int) - (val W a : Int) * (val W b : Int)
-  let P : Int := ((2 ^ (W * c.length) : Nat) : Int)
-  (toWords W c.length (v % P).toNat, v / P)
-
 /-- the `while rem_overflow < 0` loop of `div_rem_in_place_small_quotient` (runs ≤ 2 times; the
     model gives it fuel and the theorem shows the fuel suffices) -/
 def bzFix (W : Nat) (rhs : List Nat) : Nat → List Nat → List Nat → Int → Int →
@@ -413,7 +406,7 @@ def bzSmallQuotient (W dtop : Nat) : Nat → List Nat → List Nat → Except Pa
         let rem := lhs1.take n
         let q := lhs1.drop n
         -- subtract q * (the rest of rhs) from rem
-        let (rem1, ro1) := subMulContract W rem q (rhs.take (n - m))
+        let (rem1, ro1) := addSignedMul W rem.length rem true q (rhs.take (n - m))
         let (rem2, ro2) :=
           if qo ≠ 0 then
             let (t, bw) := subSameLen W (rem1.drop m) (rhs.take (n - m)) 0
